@@ -119,3 +119,38 @@ Definition holds_coef (c : ccase) : bool :=
            end
   | [] => true
   end.
+
+(* ---------------------------------------------------------------- family hist
+   histories of calls made in ONE process on shared objects (the same filter /
+   lag container reused, float twins of the exact values evaluated in between).
+   The real code is pure per call, so every checked step must equal the per-call
+   model / spec on the ORIGINAL values of its arguments; steps on float or int
+   twins (chk = false) are only executed, not compared (rounding is legitimate
+   there).  [h_after]: the contents of the caller's container after the call. *)
+Inductive hstep :=
+  | HStab (chk : bool) (roots : list (Qc * Qc)) (gain : Qc) (den : list Qc) (o : obs bool)
+  | HLev (chk : bool) (r : list Qc) (order : option nat)
+         (olev : obs (list Qc * Qc)) (opc : obs (list Qc * bool)) (after : list Qc)
+  | HPc (num den : list Qc) (o1 o2 : obs (list Qc * bool))
+  | HExn (o : string) (want : string).           (* argument kinds the code rejects, e.g. a generator *)
+
+Definition corr_step (s : hstep) : bool :=
+  match s with
+  | HStab chk roots gain den o => if chk then corr_stab (SC roots gain den o) else true
+  | HLev chk r order olev opc after =>
+      ql_eqb after r && (if chk then corr_lev (LC r order olev opc) else true)
+  | HPc num den o1 o2 => corr_pc (PC num den o1) && corr_pc (PC num den o2)
+  | HExn o want => String.eqb o want
+  end.
+
+Definition holds_step (s : hstep) : bool :=
+  match s with
+  | HStab chk roots gain den o => if chk then holds_stab (SC roots gain den o) else true
+  | HLev chk r order olev opc after => if chk then holds_lev (LC r order olev opc) else true
+  | HPc num den o1 o2 => holds_pc (PC num den o1) && holds_pc (PC num den o2)
+  | HExn _ _ => true
+  end.
+
+Definition hcase := list hstep.
+Definition corr_hist (c : hcase) : bool := forallb corr_step c.
+Definition holds_hist (c : hcase) : bool := forallb holds_step c.
